@@ -7,7 +7,7 @@ from framelint.core import rule, Ctx
 from framelint.srcmodel import walk_own, AnalysisError
 from framelint.canon import (canon_function, show, S, to_poly, mk_lt, mk_and, mk_or, mk_not, mk_eq, k_num, k_str, contains,
                              skey, atoms_of, Sigma, K_TRUE, K_FALSE, K_NONE, single_defs, deref, Poly)
-from framelint.peval import peval_block, paths
+from framelint.peval import peval_block, paths, traces
 from framelint.cfg import ENTRY, EXIT, RAISE
 from .common import PB, SATM, call_name, norm_stmt, stmt_calls
 from .C16 import ineq_table
@@ -66,18 +66,12 @@ def r1(ctx: Ctx) -> None:
     ineq = ("p", 0)
     ctx.site(f.where, "non-clause inequalities: diagram encoded and its root asserted")
     rob = ("c", ("a", ineq, "getrobdd"), (("p", 1),), ())
-    els = [st for st in c if st[0] == "if" and st[1] == ("c", ("a", ineq, "isclause"), (), ())]
-    ok = False
-    if len(els) == 1:
-        body = els[0][3]
-        cod = [st for st in body if st[0] == "expr" and st[1][0] == "c" and st[1][1] == ("a", S_, "_codifyrobdd")]
-        add = [st for st in body if st[0] == "expr" and st[1][0] == "c" and st[1][1] == ("a", S_, "add_clause")]
-        if len(cod) == 1 and len(add) == 1:
-            root = cod[0][1][2][0]
-            root_d = deref(root, single_defs(canon_function(f, ctx.model)))
-            lit = add[0][1][2][0]
-            ok = (root_d == rob or root == rob or root[0] == "v") and lit[0] == "list" and len(lit[1]) == 1 and lit[1][0][0] == "c" \
-                and lit[1][0][1] == ("a", S_, "newvar") and lit[1][0][2][0] == root and lit[1][0][2][1] == k_str("robdd_")
+    isc = ("c", ("a", ineq, "isclause"), (), ())
+    # whatever the arrangement of branches: on every path where the inequality is not a clause, exactly two things are done
+    trs = [t for t in traces(canon_function(f, ctx.model), fall=K_NONE) if mk_not(isc) in t[0]]
+    want_eff = (("expr", ("c", ("a", S_, "_codifyrobdd"), (rob,), ())),
+                ("expr", ("c", ("a", S_, "add_clause"), (("list", (("c", ("a", S_, "newvar"), (rob, k_str("robdd_")), ()),)),), ())))
+    ok = bool(trs) and all(t[1] == want_eff and t[2] == K_NONE for t in trs)
     if not ok:
         ctx.report(f.where, "root-not-asserted", "pseudoboolencoding does not codify the diagram of the inequality and assert exactly its root variable", lineno=f.node.lineno)
 
@@ -144,20 +138,23 @@ def r2(ctx: Ctx) -> None:
 
     def clause(*lits):
         return ("expr", ("c", ("a", S_, "add_clause"), (("list", tuple(lits)),), ()))
-    outer = [st for st in c if st[0] == "if"]
     ctx.site(f.where, "check-then-mark on self.codified")
-    ok = len(outer) == 1 and outer[0][1] == ("cmp", "notin", rid, ("a", S_, "codified")) and outer[0][2] and \
-        outer[0][2][0] == ("set", ("s", ("a", S_, "codified"), rid), K_TRUE) and outer[0][3] == ()
+    seen_lit = ("cmp", "in", rid, ("a", S_, "codified"))
+    mark = ("set", ("s", ("a", S_, "codified"), rid), K_TRUE)
+    trs = traces(canon_function(f, ctx.model), fall=K_NONE)
+    seen = [t for t in trs if seen_lit in t[0]]
+    fresh = [t for t in trs if mk_not(seen_lit) in t[0]]
+    ok = bool(seen) and bool(fresh) and len(seen) + len(fresh) == len(trs) and all(t[1] == () and t[2] == K_NONE for t in seen) \
+        and all(t[1][:1] == (mark,) for t in fresh)
     if not ok:
         ctx.report(f.where, "codify-guard", "_codifyrobdd does not guard the translation by 'id not in self.codified' and mark the id first", lineno=f.node.lineno)
         return
-    ps = paths(outer[0][2])
-    body = outer[0][2]
+    body = c
     stmts = atoms_of(body, lambda x: x[0] == "expr")
     ctx.site(f.where, "terminal 0 -> [not p]; terminal 1 -> [p]")
-    z = [st for st in atoms_of(body, lambda x: x[0] == "if" and x[1] == mk_eq(rid, k_num(0)))]
-    o = [st for st in atoms_of(body, lambda x: x[0] == "if" and x[1] == mk_eq(rid, k_num(1)))]
-    if not (len(z) == 1 and z[0][2] == (clause(neg(p)),) and len(o) == 1 and o[0][2] == (clause(p),)):
+    z = [t for t in fresh if mk_eq(rid, k_num(0)) in t[0]]
+    o = [t for t in fresh if mk_eq(rid, k_num(1)) in t[0] and mk_eq(rid, k_num(0)) not in t[0]]
+    if not (z and o and all(t[1] == (mark, clause(neg(p))) and t[2] == K_NONE for t in z) and all(t[1] == (mark, clause(p)) and t[2] == K_NONE for t in o)):
         ctx.report(f.where, "terminal-clauses", "the terminals are not translated as 0 -> [not p], 1 -> [p]", lineno=f.node.lineno)
     ctx.site(f.where, "both children codified")
     kids = {st[1][2][0] for st in stmts if st[1][0] == "c" and st[1][1] == ("a", S_, "_codifyrobdd")}
@@ -287,15 +284,13 @@ def r4(ctx: Ctx) -> None:
         ctx.report(g.where, "heule-k", "heuleencoding does not refuse k < 3 (the recursion would not shrink the list)", lineno=g.node.lineno)
     defs = single_defs(cg)
     ctx.site(g.where, "short lists go to the pairwise encoding; long lists are split around a fresh variable")
-    br = [st for st in cg if st[0] == "if" and contains(st[1], n)]
     ok = False
     detail = ""
-    if len(br) == 1:
-        cond, long_, short = br[0][1], br[0][2], br[0][3]
-        if cond == mk_lt(k, n):
-            pass
-        elif cond == mk_not(mk_lt(k, n)):
-            long_, short = short, long_
+    trs = [t for t in traces(cg, fall=K_NONE, keep_sets=True) if not (isinstance(t[2], tuple) and t[2][:1] == ("raise",))]
+    longs = [t for t in trs if mk_lt(k, n) in t[0]]
+    shorts = [t for t in trs if mk_not(mk_lt(k, n)) in t[0]]
+    if len(longs) == 1 and len(shorts) == 1 and len(trs) == 2:
+        long_, short = longs[0][1], shorts[0][1]
         short_ok = short == (("expr", ("c", ("a", S_, "quadraticencoding"), (lst,), ())),)
         sets = {st[1]: st[2] for st in long_ if st[0] == "set" and len(st) == 3 and st[1][0] == "v"}
         fresh = [v for v, e in sets.items() if e == ("c", ("a", S_, "newaux"), (), ())]
